@@ -9,6 +9,7 @@
 (*   owner : Seq(Int) (poly: the returned corrected_to_original_faces)     *)
 (*   am    : Seq(Int) (kind "am": Grid.antimeridian_face_indices)          *)
 (*   crs_ok: the CRS the object declares is the requested one              *)
+(*   closed: Seq(BOOLEAN) (kind "line": line j ends where it starts)       *)
 (* Verdict: <<"V", id, failed clause names, facts>>; records on which the  *)
 (* property leaves the answer open print <<"N", id, reason>>.              *)
 (***************************************************************************)
@@ -81,7 +82,9 @@ Clauses(r) ==
     OnePiecePerRow |-> (geo /\ ~split) => \A j \in 1..Len(r.rows) : Len(r.rows[j]) = 1,
     RingIsFace     |-> (geo /\ ~split /\ rowsOK) =>
                           \A j \in 1..Len(r.rows) : Len(r.rows[j]) >= 1 /\ RingIsFace(m, r.rows[j][1], RowFace(r, j)),
-    LineClosed     |-> r.kind = "line" => \A j \in 1..Len(r.rows) : \A q \in 1..Len(r.rows[j]) : ClosedRing(r.rows[j][q]),
+    \* every exported line is a closed ring (closed[j]: first and last coordinates of line j coincide)
+    LineClosed     |-> r.kind = "line" => /\ \A j \in 1..Len(r.rows) : \A q \in 1..Len(r.rows[j]) : ClosedRing(r.rows[j][q])
+                                          /\ Has(r, "closed") => (Len(r.closed) = Len(r.rows) /\ \A j \in 1..Len(r.closed) : r.closed[j]),
     \* split
     SplitRowsPerFace |-> (geo /\ split /\ SplitWithOwners(r)) => ownOK,
     SplitOwnership |-> (geo /\ split /\ SplitWithOwners(r) /\ ownOK) => \A f \in FaceIds(m) : PiecesOwned(m, f, PiecesOf(r, f)),
@@ -103,8 +106,37 @@ Clauses(r) ==
   ]
 
 Failed(r) == LET c == Clauses(r) IN { n \in DOMAIN c : ~c[n] }
+
+(* ---- recognisable shapes of a failure (facts for narrow known-finding signatures) ---- *)
+\* face expected at position j when only the faces kept by 'exclude' are counted
+Slot(r, j) == IF r.pe = "exclude" THEN Kept(Mesh(r), r.k, r.sgn)[j] ELSE j - 1
+NKept(r)   == Len(Kept(Mesh(r), r.k, r.sgn))
+RowIs(r, rows, j, f) == Len(rows[j]) = 1 /\ RingIsFace(Mesh(r), rows[j][1], f)
+\* every polygon appears twice in a row (over the kept faces)
+Doubled(r) == /\ Len(r.rows) = 2 * NKept(r)
+              /\ \A j \in 1..NKept(r) : RowIs(r, r.rows, 2 * j - 1, Slot(r, j)) /\ RowIs(r, r.rows, 2 * j, Slot(r, j))
+              /\ Has(r, "data") => /\ Len(r.data) = Len(r.rows)
+                                   /\ \A j \in 1..NKept(r) : r.data[2 * j - 1] = Tracer(Slot(r, j)) /\ r.data[2 * j] = Tracer(Slot(r, j))
+\* 'ignore': only the first n - (number of crossing faces) polygons are present
+Truncated(r) == /\ r.pe = "ignore" /\ NKept(r) < NF(Mesh(r)) /\ Len(r.rows) = NKept(r)
+                /\ \A j \in 1..Len(r.rows) : RowIs(r, r.rows, j, j - 1)
+                /\ Has(r, "data") => (Len(r.data) = Len(r.rows) /\ \A j \in 1..Len(r.rows) : r.data[j] = Tracer(j - 1))
+\* 'ignore': all polygons present, the data array stops n_cross values early
+DataTruncated(r) == /\ r.pe = "ignore" /\ Has(r, "data") /\ NKept(r) < NF(Mesh(r))
+                    /\ Len(r.rows) = NF(Mesh(r)) /\ Len(r.data) = NKept(r)
+                    /\ \A j \in 1..Len(r.data) : r.data[j] = Tracer(j - 1)
+\* vertices are the corners in (seam-shifted) lon/lat although the object declares the projection
+Unprojected(r) == /\ Has(r, "rows_ll") /\ Len(r.rows_ll) = NExpected(r)
+                  /\ \A j \in 1..Len(r.rows_ll) : RowIs(r, r.rows_ll, j, RowFace(r, j))
+Pattern(r) == IF r.kind = "am" THEN "none"
+              ELSE IF Unprojected(r) THEN (IF DataTruncated(r) THEN "unprojected+data_truncated" ELSE "unprojected")
+              ELSE IF r.pe # "split" /\ Doubled(r) THEN "doubled"
+              ELSE IF Truncated(r) THEN "truncated"
+              ELSE IF DataTruncated(r) THEN "data_truncated"
+              ELSE "none"
 Facts(r)  == [ crossers |-> Cardinality(CrossSet(Mesh(r), r.k, r.sgn)),
-               polein   |-> Cardinality(PoleInSet(Mesh(r)) \cap CrossSet(Mesh(r), r.k, r.sgn)) ]
+               polein   |-> Cardinality(PoleInSet(Mesh(r)) \cap CrossSet(Mesh(r), r.k, r.sgn)),
+               pattern  |-> Pattern(r) ]
 
 Init == i \in { -b : b \in 1..NBlocks }
 Next == /\ i < 0
